@@ -11,6 +11,7 @@ macro_rules! dispatch {
         match $id {
             "C18" => $f(chk_persist::C18, $($extra),*),
             "C19" => $f(chk_persist::C19, $($extra),*),
+            "C20" => $f(chk_persist::C20, $($extra),*),
             other => {
                 eprintln!("unknown property id {}", other);
                 2
@@ -24,6 +25,10 @@ fn worker<C: vcore::Check>(c: C) -> i32 {
     if std::env::var("VERIF_STRICT").is_err() {
         let k = vcore::kf::KnownFindings::load(&std::path::Path::new(&root).join("known_findings.json"), c.id());
         vcore::kf::set_open_sigs(k.open_signatures());
+    }
+    if c.id() == "C20" {
+        // watchdog thread + SIGABRT handler (see chk_persist::guard)
+        chk_persist::guard::install();
     }
     vcore::isolate::worker_main(c)
 }
